@@ -199,8 +199,10 @@ def run_unit(ctx, unit):
         opt = "--sort-by" if mode == "sort" else "--group-by"
         d = " DESC" if (unit["desc"] and mode == "sort") else ""
         tail = ["--sort-by=(null? .nosuchfield)"] if unit.get("extra_sort") else []
-        obs = run([core.Case(pre + ["--select=" + e + "=c", "--select", ".=v", opt + "=" + ev + d] + tail, data),
-                   core.Case(pre + ["--select=" + e + "=c", "--select", ".=v", opt + "=/c/" + d], data)])
+        # (a column may be called anything that holds no `/` and no `=`: /name/ is that name, character for character)
+        cn = ("c", "c", "a\\b", "x y", "\u00e9", "a.b", "c", "1", "(c)", "\\", "a\\|b", ":v", "@m", "#0", "^")[len(e) % 15]
+        obs = run([core.Case(pre + ["--select=" + e + "=" + cn, "--select", ".=v", opt + "=" + ev + d] + tail, data),
+                   core.Case(pre + ["--select=" + e + "=" + cn, "--select", ".=v", opt + "=/" + cn + "/" + d], data)])
         if obs is None:
             return
         st.count("conclusive")
